@@ -734,6 +734,10 @@ class HalmosBitVec:
         assert size == modulus.size
 
         if self.is_concrete and other.is_concrete and modulus.is_concrete:
+            # addmod by zero is zero
+            if modulus.value == 0:
+                return HalmosBitVec(0, size=size)
+
             return HalmosBitVec((self.value + other.value) % modulus.value, size=size)
 
         # to avoid add overflow; and to be a multiple of 8-bit
@@ -762,6 +766,10 @@ class HalmosBitVec:
         assert size == modulus.size
 
         if self.is_concrete and other.is_concrete and modulus.is_concrete:
+            # mulmod by zero is zero
+            if modulus.value == 0:
+                return HalmosBitVec(0, size=size)
+
             return HalmosBitVec((self.value * other.value) % modulus.value, size=size)
 
         # to avoid mul overflow
